@@ -34,6 +34,7 @@ func init() {
 	})
 	register("C12", "other", func(c *Ctx) {
 		c.Run.Explainf("C12 (parameter and result identifiers never collide or capture) — necessary conditions only: (a) the reserved-name table of the name proposer (found by role: the moq function whose result first defines the local that becomes Var.Name in AddVar) covers every fixed identifier the generated method body resolves from inside the parameters' scope (computed from the skeletons over all flag combinations: K-FREE), all Go keywords and all predeclared type names; (b) every return path of the proposer passes the table (go/cfg, table node deleted); (c) in AddVar, import discovery, retro-active renames, the import-qualifier test and the variable test all dominate the construction of the Var, unconditionally; numbered candidates are tested against variables and imports before use; (d) parameters and results of a method share one scope, methods never do (G-SCOPE, from the interpretation of Mock). NOT decided: pairwise distinctness produced by the numbering algorithm and distinctness of Exported() names for every parameter list (value level).")
+		c.collisionRows = true
 		namesTables(c, freeNameList(c, "G-RESERVED"), false, false)
 		gen.CheckVarNameOwners(c.Run, c.Prog)
 		// distinct parameter names give distinct record fields only as far as Exported maps names apart: its
